@@ -151,4 +151,324 @@ theorem deputies_loadable_partial (max dc td h : Nat) (cands : List Cand) (votes
 example : newTermRecord 6 6 (sealDeputies 2 (topOf 20 [⟨1, 4⟩, ⟨3, 50000⟩])
     (fun a => if a = 1 then 4 else 50000)) = .ok := by decide
 
+/-! ## (U): the incremental update -/
+
+/-- how the set of registered candidates evolves in one block, at the level of sets: the vote logs
+    `L` overwrite / add entries, the addresses `U` (accounts un-registered in this block) leave. -/
+def nextReg (R : List Cand) (U : List Nat) (L : List Cand) : List Cand :=
+  filterUnreg (L.foldl putCand R) U
+
+theorem mergeCandidates_eq (max : Nat) (hmax : 1 ≤ max) {T ch : List Cand}
+    (hT : T.Pairwise LE) (hlen : T.length ≤ max) :
+    mergeCandidates max T ch = topOf max (ch.foldl putCand T) := by
+  unfold mergeCandidates
+  cases ch with
+  | nil => simp [topOf, take_fullSort_of_sorted hT hlen]
+  | cons c cs => simp [ranking_is_sort max hmax]
+
+/-- set-level facts shared by all branches -/
+theorem merge_facts {R L : List Cand} {U : List Nat} {max : Nat} (hR : AddrNodup R) (hL : AddrNodup L) :
+    let T := topOf max R
+    let M := (filterUnreg L U).foldl putCand (filterUnreg T U)
+    let R' := nextReg R U L
+    AddrNodup M ∧ AddrNodup R' ∧ (∀ x ∈ M, x ∈ R') ∧ (∀ x ∈ R', x ∉ M → x ∈ R ∧ x ∉ T) := by
+  intro T M R'
+  have hTsub : T <+ fullSort R := take_sublist _ _
+  have hTnd : AddrNodup T := (hR.perm (fullSort_perm R).symm).sublist hTsub
+  have hLU : AddrNodup (filterUnreg L U) := hL.sublist (filterUnreg_sublist _ _)
+  have hmemM : ∀ x, x ∈ M ↔ x.addr ∉ U ∧ (x ∈ L ∨ (x ∈ T ∧ ∀ l ∈ L, l.addr ≠ x.addr)) := by
+    intro x
+    simp only [M, mem_foldl_putCand hLU, mem_filterUnreg]
+    constructor
+    · rintro (⟨h1, h2⟩ | ⟨⟨h1, h2⟩, h3⟩)
+      · exact ⟨h2, Or.inl h1⟩
+      · refine ⟨h2, Or.inr ⟨h1, ?_⟩⟩
+        intro l hl e
+        exact h3 l ⟨hl, e ▸ h2⟩ e
+    · rintro ⟨h1, h2 | ⟨h2, h3⟩⟩
+      · exact Or.inl ⟨h2, h1⟩
+      · exact Or.inr ⟨⟨h2, h1⟩, fun l hl => h3 l hl.1⟩
+  have hmemR' : ∀ x, x ∈ R' ↔ x.addr ∉ U ∧ (x ∈ L ∨ (x ∈ R ∧ ∀ l ∈ L, l.addr ≠ x.addr)) := by
+    intro x
+    simp only [R', nextReg, mem_filterUnreg, mem_foldl_putCand hL]
+    exact And.comm
+  refine ⟨addrNodup_foldl_putCand _ (hTnd.sublist (filterUnreg_sublist _ _)),
+    (addrNodup_foldl_putCand _ hR).sublist (filterUnreg_sublist _ _), ?_, ?_⟩
+  · intro x hx
+    obtain ⟨h1, h2⟩ := (hmemM x).mp hx
+    refine (hmemR' x).mpr ⟨h1, ?_⟩
+    rcases h2 with h | ⟨h, h'⟩
+    · exact Or.inl h
+    · exact Or.inr ⟨mem_fullSort.mp (hTsub.subset h), h'⟩
+  · intro x hx hnot
+    obtain ⟨h1, h2⟩ := (hmemR' x).mp hx
+    rcases h2 with h | ⟨h, h'⟩
+    · exact absurd ((hmemM x).mpr ⟨h1, Or.inl h⟩) hnot
+    · exact ⟨h, fun hT => hnot ((hmemM x).mpr ⟨h1, Or.inr ⟨hT, h'⟩⟩)⟩
+
+/-- (U) FULL statement for the REPAIRED update: for every set `R` of registered candidates (one entry
+    per address) whose published list is right, every list `U` of addresses un-registered in the block
+    and every list `L` of vote logs (one per address), if the index restricted to the registered
+    accounts enumerates the new set, `updateTopFixed` publishes exactly the full sort of the new set cut
+    to `max` — in all four branches. -/
+theorem updateTopFixed_eq_fullSort (max : Nat) (hmax : 1 ≤ max)
+    (R : List Cand) (hR : AddrNodup R) (U : List Nat) (L : List Cand) (hL : AddrNodup L)
+    (index : List Cand) (accts : List Acct)
+    (hidx : index.filter (fun c => flagOf accts c.addr == Flag.yes) ~ nextReg R U L) :
+    updateTopFixed max (topOf max R) index accts U L = .ok (topOf max (nextReg R U L)) := by
+  obtain ⟨hMnd, hR'nd, hsub, hout⟩ := merge_facts (max := max) (U := U) hR hL
+  have hTs : (topOf max R).Pairwise LE := (fullSort_sorted R).sublist (take_sublist _ _)
+  have hTlen : (topOf max R).length ≤ max := by simp [topOf, length_take]; omega
+  have hT0s : (filterUnreg (topOf max R) U).Pairwise LE := hTs.sublist (filterUnreg_sublist _ _)
+  have hT0len : (filterUnreg (topOf max R) U).length ≤ max :=
+    Nat.le_trans (filterUnreg_sublist _ _).length_le hTlen
+  have hall : ranking max (index.filter (fun c => flagOf accts c.addr == Flag.yes)) = topOf max (nextReg R U L) := by
+    rw [ranking_perm_invariant max hidx, ranking_is_sort max hmax]
+  unfold updateTopFixed
+  simp only [mergeCandidates_eq max hmax hT0s hT0len, hall]
+  split
+  · -- branch 1: the list was not full, so it held every registered candidate
+    rename_i hlt
+    congr 1
+    have hRlen : (fullSort R).length ≤ max := by
+      simp only [topOf, length_take] at hlt; omega
+    have hTall : topOf max R = fullSort R := take_of_length_le hRlen
+    unfold topOf
+    rw [fullSort_congr]
+    apply (perm_ext_iff_of_nodup hMnd.nodup hR'nd.nodup).mpr
+    intro x
+    refine ⟨hsub x, fun hx => ?_⟩
+    by_cases hxM : x ∈ (filterUnreg L U).foldl putCand (filterUnreg (topOf max R) U)
+    · exact hxM
+    · have := hout x hx hxM
+      exact absurd (hTall ▸ mem_fullSort.mpr this.1) this.2
+  · split
+    · rfl
+    · rename_i hnlt hngt
+      split
+      · rename_i nm om hnm hom
+        split
+        · -- branch 3: merge result kept
+          rename_i hle
+          congr 1
+          symm
+          have hNlen : (topOf max ((filterUnreg L U).foldl putCand (filterUnreg (topOf max R) U))).length = max := by
+            have : (topOf max ((filterUnreg L U).foldl putCand (filterUnreg (topOf max R) U))).length ≤ max := by
+              simp [topOf, length_take]; omega
+            omega
+          apply topk_extend hMnd.nodup hR'nd.nodup hsub hNlen
+          intro x hx hxM n hn
+          obtain ⟨hxR, hxT⟩ := hout x hx hxM
+          have h1 : LE n nm := sorted_le_last ((fullSort_sorted _).sublist (take_sublist _ _)) hnm n hn
+          have h2 : LE nm om := (rankLE_iff nm om).mp hle
+          have h3 : LE om x := outside_top hxR hxT om (mem_of_getLast? hom)
+          exact LE_trans h1 (LE_trans h2 h3)
+        · rfl
+      · -- `Min()` of an empty list: impossible for max ≥ 1
+        rename_i hnone
+        exfalso
+        have hTne : (topOf max R) ≠ [] := by
+          intro h; rw [h] at hnlt; simp at hnlt; omega
+        have hNne : topOf max ((filterUnreg L U).foldl putCand (filterUnreg (topOf max R) U)) ≠ [] := by
+          intro h; rw [h] at hngt; simp at hngt; exact hTne (by simpa using hngt)
+        obtain ⟨a, ha⟩ := Option.isSome_iff_exists.mp (by simpa using hNne : (topOf max ((filterUnreg L U).foldl putCand (filterUnreg (topOf max R) U))).getLast?.isSome)
+        obtain ⟨b, hb⟩ := Option.isSome_iff_exists.mp (by simpa using hTne : (topOf max R).getLast?.isSome)
+        exact hnone a b ha hb
+
+/-- branch 1 (list not full ⇒ it held every registered candidate ⇒ the merge is the full sort) -/
+theorem branch1_correct {max : Nat} {R L : List Cand} {U : List Nat} (hR : AddrNodup R) (hL : AddrNodup L)
+    (hlt : (topOf max R).length < max) :
+    topOf max ((filterUnreg L U).foldl putCand (filterUnreg (topOf max R) U)) = topOf max (nextReg R U L) := by
+  obtain ⟨hMnd, hR'nd, hsub, hout⟩ := merge_facts (max := max) (U := U) hR hL
+  have hRlen : (fullSort R).length ≤ max := by
+    simp only [topOf, length_take] at hlt; omega
+  have hTall : topOf max R = fullSort R := take_of_length_le hRlen
+  unfold topOf
+  rw [fullSort_congr]
+  apply (perm_ext_iff_of_nodup hMnd.nodup hR'nd.nodup).mpr
+  intro x
+  refine ⟨hsub x, fun hx => ?_⟩
+  by_cases hxM : x ∈ (filterUnreg L U).foldl putCand (filterUnreg (topOf max R) U)
+  · exact hxM
+  · have := hout x hx hxM
+    exact absurd (hTall ▸ mem_fullSort.mpr this.1) this.2
+
+/-- branch 3 (list full, merged list as long, new minimum ranked at or before the old minimum in the
+    (votes, address) order ⇒ nothing outside the merged set can enter the list) -/
+theorem branch3_correct {max : Nat} {R L : List Cand} {U : List Nat} (hR : AddrNodup R) (hL : AddrNodup L)
+    (hnlt : ¬ (topOf max R).length < max)
+    (hngt : ¬ (topOf max R).length > (topOf max ((filterUnreg L U).foldl putCand (filterUnreg (topOf max R) U))).length)
+    {nm om : Cand}
+    (hnm : (topOf max ((filterUnreg L U).foldl putCand (filterUnreg (topOf max R) U))).getLast? = some nm)
+    (hom : (topOf max R).getLast? = some om) (hle : LE nm om) :
+    topOf max ((filterUnreg L U).foldl putCand (filterUnreg (topOf max R) U)) = topOf max (nextReg R U L) := by
+  obtain ⟨hMnd, hR'nd, hsub, hout⟩ := merge_facts (max := max) (U := U) hR hL
+  symm
+  have hNlen : (topOf max ((filterUnreg L U).foldl putCand (filterUnreg (topOf max R) U))).length = max := by
+    have : (topOf max ((filterUnreg L U).foldl putCand (filterUnreg (topOf max R) U))).length ≤ max := by
+      simp [topOf, length_take]; omega
+    omega
+  apply topk_extend hMnd.nodup hR'nd.nodup hsub hNlen
+  intro x hx hxM n hn
+  obtain ⟨hxR, hxT⟩ := hout x hx hxM
+  have h1 : LE n nm := sorted_le_last ((fullSort_sorted _).sublist (take_sublist _ _)) hnm n hn
+  have h3 : LE om x := outside_top hxR hxT om (mem_of_getLast? hom)
+  exact LE_trans h1 (LE_trans hle h3)
+
+/-- (U) `_partial`, for `updateTop` AS CODED.  Exact guards:
+    * `hidx`  — the all-candidates index enumerates exactly the registered candidates of the new view
+                (false as soon as somebody has un-registered: the entry stays with 0 votes; false after
+                a restart: the index is empty), needed only by the two re-rank-all branches;
+    * `htie`  — when the new minimum has the same votes as the old minimum, its address is not larger
+                (the code compares the totals only).
+    Under them the published list is the full sort of the registered candidates cut to `max`. -/
+theorem updateTop_eq_fullSort_partial (max : Nat) (hmax : 1 ≤ max)
+    (R : List Cand) (hR : AddrNodup R) (U : List Nat) (L : List Cand) (hL : AddrNodup L)
+    (index : List Cand) (hidx : index ~ nextReg R U L)
+    (htie : ∀ nm om,
+      (mergeCandidates max (filterUnreg (topOf max R) U) (filterUnreg L U)).getLast? = some nm →
+      (topOf max R).getLast? = some om → nm.votes = om.votes → nm.addr ≤ om.addr) :
+    updateTop max (topOf max R) index U L = .ok (topOf max (nextReg R U L)) := by
+  have hTs : (topOf max R).Pairwise LE := (fullSort_sorted R).sublist (take_sublist _ _)
+  have hTlen : (topOf max R).length ≤ max := by simp [topOf, length_take]; omega
+  have hT0s : (filterUnreg (topOf max R) U).Pairwise LE := hTs.sublist (filterUnreg_sublist _ _)
+  have hT0len : (filterUnreg (topOf max R) U).length ≤ max :=
+    Nat.le_trans (filterUnreg_sublist _ _).length_le hTlen
+  have hall : ranking max index = topOf max (nextReg R U L) := by
+    rw [ranking_perm_invariant max hidx, ranking_is_sort max hmax]
+  rw [mergeCandidates_eq max hmax hT0s hT0len] at htie
+  unfold updateTop
+  simp only [mergeCandidates_eq max hmax hT0s hT0len, hall]
+  split
+  · rename_i hlt
+    rw [branch1_correct hR hL hlt]
+  · split
+    · rfl
+    · rename_i hnlt hngt
+      split
+      · rename_i nm om hnm hom
+        split
+        · rename_i hge
+          have hle : LE nm om := by
+            unfold Ranking.LE
+            by_cases he : nm.votes = om.votes
+            · exact Or.inr ⟨he, htie nm om hnm hom he⟩
+            · left; omega
+          rw [branch3_correct hR hL hnlt hngt hnm hom hle]
+        · rfl
+      · rename_i hnone
+        exfalso
+        have hTne : (topOf max R) ≠ [] := by
+          intro h; rw [h] at hnlt; simp at hnlt; omega
+        have hNne : topOf max ((filterUnreg L U).foldl putCand (filterUnreg (topOf max R) U)) ≠ [] := by
+          intro h; rw [h] at hngt; simp at hngt; exact hTne (by simpa using hngt)
+        obtain ⟨a, ha⟩ := Option.isSome_iff_exists.mp (by simpa using hNne : (topOf max ((filterUnreg L U).foldl putCand (filterUnreg (topOf max R) U))).getLast?.isSome)
+        obtain ⟨b, hb⟩ := Option.isSome_iff_exists.mp (by simpa using hTne : (topOf max R).getLast?.isSome)
+        exact hnone a b ha hb
+
+/-- the guards of `updateTop_eq_fullSort_partial` are satisfiable with a full list, a tie and a
+    re-rank (max 2; A(9,30) B(5,20) C(7,20); B rises to 30) -/
+example : updateTop 2 (topOf 2 [⟨9, 30⟩, ⟨5, 20⟩, ⟨7, 20⟩]) [⟨9, 30⟩, ⟨5, 30⟩, ⟨7, 20⟩] [] [⟨5, 30⟩]
+    = .ok (topOf 2 (nextReg [⟨9, 30⟩, ⟨5, 20⟩, ⟨7, 20⟩] [] [⟨5, 30⟩])) := by decide
+
+/-! ### (U) refuted on the faithful model -/
+
+/-- run a path of blocks (each a list of changed accounts) from a block -/
+def runPath (max : Nat) : Blk → List (List Change) → GoRes Blk
+  | b, [] => .ok b
+  | b, chs :: rest =>
+    match applyBlock max 0 b chs [] with
+    | .ok b' => runPath max b' rest
+    | .err e => .err e
+    | .panic => .panic
+
+/-- the published list of the last block of a path vs. the specification on its own account view -/
+def pathOK (max : Nat) (path : List (List Change)) : Bool :=
+  match runPath max {} path with
+  | .ok b => decide (b.top = topOf max (registered b.accts))
+  | _ => false
+
+/-- (U) REFUTED, defect 1 (tie): max 2; A(addr 9, 30 votes), B(5, 20), C(7, 20) register; then A drops
+    to 20 votes.  The merge gives `[B, A]`, the new minimum has the same TOTAL as the old one, the third
+    branch keeps it; the full sort is `[B, C]`. -/
+theorem updateTop_tie_refuted :
+    pathOK 2 [[⟨9, .yes, 30, true⟩, ⟨5, .yes, 20, true⟩, ⟨7, .yes, 20, true⟩], [⟨9, .yes, 20, true⟩]] = false ∧
+    (∃ b, runPath 2 {} [[⟨9, .yes, 30, true⟩, ⟨5, .yes, 20, true⟩, ⟨7, .yes, 20, true⟩], [⟨9, .yes, 20, true⟩]] = .ok b ∧
+      b.top = [⟨5, 20⟩, ⟨9, 20⟩] ∧ topOf 2 (registered b.accts) = [⟨5, 20⟩, ⟨7, 20⟩]) := by
+  refine ⟨by decide, ?_⟩
+  exact ⟨_, rfl, by decide, by decide⟩
+
+/-- (U) REFUTED, defect 2 (re-rank-all reads un-registered index entries): max 2; 9(30), 5(20), 7(10);
+    9 and 5 un-register (votes 0, logged).  Published `[7:10, 5:0]`; only 7 is registered. -/
+theorem rerank_unregistered_refuted :
+    pathOK 2 [[⟨9, .yes, 30, true⟩, ⟨5, .yes, 20, true⟩, ⟨7, .yes, 10, true⟩],
+              [⟨9, .no, 0, true⟩, ⟨5, .no, 0, true⟩]] = false ∧
+    (∃ b, runPath 2 {} [[⟨9, .yes, 30, true⟩, ⟨5, .yes, 20, true⟩, ⟨7, .yes, 10, true⟩],
+              [⟨9, .no, 0, true⟩, ⟨5, .no, 0, true⟩]] = .ok b ∧
+      b.top = [⟨7, 10⟩, ⟨5, 0⟩] ∧ topOf 2 (registered b.accts) = [⟨7, 10⟩]) := by
+  refine ⟨by decide, ?_⟩
+  exact ⟨_, rfl, by decide, by decide⟩
+
+/-- (U) REFUTED, defect 3 (early return): a candidate with 0 votes (e.g. a genesis deputy nobody voted
+    for) un-registers: votes 0 → 0 is no VotesLog, `Ranking` returns before looking at the
+    un-registrations, the candidate stays published. -/
+theorem unregister_zero_votes_refuted :
+    pathOK 2 [[⟨9, .yes, 0, true⟩, ⟨5, .yes, 0, true⟩], [⟨9, .no, 0, false⟩]] = false ∧
+    (∃ b, runPath 2 {} [[⟨9, .yes, 0, true⟩, ⟨5, .yes, 0, true⟩], [⟨9, .no, 0, false⟩]] = .ok b ∧
+      b.top = [⟨5, 0⟩, ⟨9, 0⟩] ∧ topOf 2 (registered b.accts) = [⟨5, 0⟩]) := by
+  refine ⟨by decide, ?_⟩
+  exact ⟨_, rfl, by decide, by decide⟩
+
+/-- the same three paths are right with the repaired functions -/
+def runPathFixed (max : Nat) : Blk → List (List Change) → GoRes Blk
+  | b, [] => .ok b
+  | b, chs :: rest =>
+    match applyBlockFixed max 0 b chs [] with
+    | .ok b' => runPathFixed max b' rest
+    | .err e => .err e
+    | .panic => .panic
+
+def pathFixedOK (max : Nat) (path : List (List Change)) : Bool :=
+  match runPathFixed max {} path with
+  | .ok b => decide (b.top = topOf max (registered b.accts))
+  | _ => false
+
+example : pathFixedOK 2 [[⟨9, .yes, 30, true⟩, ⟨5, .yes, 20, true⟩, ⟨7, .yes, 20, true⟩], [⟨9, .yes, 20, true⟩]] = true := by decide
+example : pathFixedOK 2 [[⟨9, .yes, 30, true⟩, ⟨5, .yes, 20, true⟩, ⟨7, .yes, 10, true⟩], [⟨9, .no, 0, true⟩, ⟨5, .no, 0, true⟩]] = true := by decide
+example : pathFixedOK 2 [[⟨9, .yes, 0, true⟩, ⟨5, .yes, 0, true⟩], [⟨9, .no, 0, false⟩]] = true := by decide
+
+/-! ## (R): restart -/
+
+/-- the list of the stable block itself is right after a restart, provided the persisted candidate
+    list restricted to the accounts that are registered in the stored state enumerates them. -/
+theorem restart_top_eq_fullSort (max : Nat) (hmax : 1 ≤ max) (persist : List Cand) (accts : List Acct)
+    (hp : persist.filter (fun c => flagOf accts c.addr == Flag.yes) ~ registered accts) :
+    restartTop max persist accts = topOf max (registered accts) := by
+  unfold restartTop
+  rw [ranking_perm_invariant max hp, ranking_is_sort max hmax]
+
+/-- (R) REFUTED for the blocks after the restart: max 2; 9(30), 5(20), 7(20) made stable; restart;
+    then 9 drops to 10.  The restarted node re-ranks "all" candidates from an index that holds only
+    candidate 9 and publishes `[9:10]`; a node that did not restart publishes `[5:20, 7:20]`. -/
+theorem restart_diverges :
+    let chs1 : List Change := [⟨9, .yes, 30, true⟩, ⟨5, .yes, 20, true⟩, ⟨7, .yes, 20, true⟩]
+    let chs2 : List Change := [⟨9, .yes, 10, true⟩]
+    ∃ b1 live restarted,
+      applyBlock 2 0 {} chs1 [] = .ok b1 ∧
+      (restartBlk 2 (commitPersist [] chs1) b1).top = b1.top ∧
+      applyBlock 2 1 b1 chs2 [] = .ok live ∧
+      applyBlock 2 1 (restartBlk 2 (commitPersist [] chs1) b1) chs2 [] = .ok restarted ∧
+      live.top = [⟨5, 20⟩, ⟨7, 20⟩] ∧ restarted.top = [⟨9, 10⟩] := by
+  intro chs1 chs2
+  exact ⟨_, _, _, rfl, by decide, rfl, rfl, by decide, by decide⟩
+
+/-- with the index rebuilt from the persisted list at start-up the same scenario agrees -/
+example :
+    (match applyBlock 2 0 {} [⟨9, .yes, 30, true⟩, ⟨5, .yes, 20, true⟩, ⟨7, .yes, 20, true⟩] [] with
+     | .ok b1 =>
+       (match applyBlockFixed 2 1 (restartBlkFixed 2 (commitPersist [] b1.changes) b1) [⟨9, .yes, 10, true⟩] [] with
+        | .ok b => decide (b.top = [⟨5, 20⟩, ⟨7, 20⟩])
+        | _ => false)
+     | _ => false) = true := by decide
+
 end LemoProofs.C10
